@@ -79,7 +79,7 @@ type boundCheck struct {
 	upper, lower bool
 	strict       bool      // upper: establishes value < limit (otherwise value <= limit)
 	lenOf        ssa.Value // upper: the limit is len()/cap() of this value (nil for constants)
-	unsignedCmp  bool // the compared value has an unsigned type (so an upper bound is also a lower bound of 0)
+	unsignedCmp  bool      // the compared value has an unsigned type (so an upper bound is also a lower bound of 0)
 	limit        string
 	pos          token.Pos
 }
@@ -175,7 +175,7 @@ func findBounds(vals []ssa.Value, sink *ssa.BasicBlock, sinkInstr ssa.Instructio
 		switch op {
 		case token.GTR, token.GEQ: // val > K true => too big on edge 0
 			bigEdge = 0
-			smallEdge = 1 // val <= K ... not a lower bound by itself
+			smallEdge = 1            // val <= K ... not a lower bound by itself
 			strict = op == token.GEQ // in range means val < K
 		case token.LSS, token.LEQ: // val < K true: edge 0 is "small", edge 1 is "big"
 			bigEdge = 1
